@@ -193,6 +193,7 @@ impl<TStdlib: Stdlib, TStdIn: Input, TStdOut: Printer, TLpt1: Printer> Interpret
         let InstructionGeneratorResult {
             instructions,
             statement_addresses,
+            label_depths,
         } = instruction_generator_result;
         let mut i: usize = 0;
         let mut ctx: InterpretOneContext = InterpretOneContext {
@@ -200,6 +201,7 @@ impl<TStdlib: Stdlib, TStdIn: Input, TStdOut: Printer, TLpt1: Printer> Interpret
             error_handler: ErrorHandler::None,
             opt_next_index: None,
             nearest_statement_finder: NearestStatementFinder::new(statement_addresses),
+            label_depths,
         };
         while i < instructions.len() && !ctx.halt {
             let instruction = &instructions[i].element;
@@ -536,6 +538,14 @@ impl<TStdlib: Stdlib, TStdIn: Input, TStdOut: Printer, TLpt1: Printer>
                 }
                 self.return_marks.clear();
                 self.saved_print_states.clear();
+                // the FOR loops and SELECT CASE blocks that the jump leaves (wherever the
+                // error came from): only those that enclose the label remain
+                if let Some((for_depth, select_depth)) =
+                    ctx.label_depths.get(&resume_label.address())
+                {
+                    self.register_stack.truncate(1 + for_depth);
+                    self.value_stack.truncate(*select_depth);
+                }
             }
             Instruction::Throw(interpreter_error) => {
                 return Err(interpreter_error.clone()).with_err_at(&pos);
@@ -764,6 +774,9 @@ struct InterpretOneContext {
     opt_next_index: Option<usize>,
 
     nearest_statement_finder: NearestStatementFinder,
+
+    /// The FOR depth and the SELECT CASE depth of every label, by address.
+    label_depths: std::collections::HashMap<usize, (usize, usize)>,
 }
 
 #[derive(Clone, Copy, Debug, Eq, PartialEq)]
